@@ -5,6 +5,10 @@
          guarded by is_name_valid(x).
   C08.O  lookup order: resolve_function tries the literal name, namespace + name, function imports, module-prefix
          imports, each later lookup only if the previous ones found nothing.
+  C08.H  function handles are injective: the handle under which a function's entry label is stored (and which every call
+         site encodes) is a hash of the function's position in the flattened output - taken as `out.len()` right where the
+         function is pushed - so two functions never share one. A handle hashed from the name segments back to back
+         (without separator) is reported: `ab.c` and `a.bc` collide while the name-keyed duplicate check passes.
   C08.F  caller frame isolation: a frame's stack_offset is len - arity and Return truncates exactly to it.
 """
 from cao.facts import (AnchorMissing, callee_names, short, op_local, op_place, DefUse, hir_walk, hir_callee, hir_strip, hir_local_id)
@@ -220,6 +224,64 @@ def rule_o(F):
     return res
 
 
+def rule_h(F):
+    res = []
+    g = F.fn("compiler::module::function_to_function_ir")
+    key = "C08/H/function_to_function_ir/handle-is-injective"
+    hexpr = None
+    for x in hir_walk(g.hir["body"]):
+        if x.get("k") == "struct" and short(x["path"]["res"].get("path", "")).endswith("FunctionIr"):
+            for fl in x["fields"]:
+                if fl["name"] == "handle":
+                    hexpr = fl["e"]
+    if hexpr is None:
+        raise AnchorMissing("FunctionIr { handle: .. } in function_to_function_ir")
+    e = hu.strip_all(hexpr)
+    names = hir_callee(e) if e.get("k") in ("call", "mcall") else []
+    ctor = [n.rsplit("::", 1)[-1] for n in names if "Handle::" in n]
+    params = [p.get("id") for p in g.hir["params"]]
+    if ctor and ctor[0] in ("from_u64", "from_u32", "from_i64") and e["args"]:
+        lid = hir_local_id(hu.strip_all(e["args"][0]))
+        if lid in params:
+            pidx = params.index(lid)
+            # every call site passes `<vec>.len()` of the vector the result is pushed onto
+            sites = 0
+            good = True
+            why = ""
+            for f in F.fns:
+                if not f.hir or f.is_closure:
+                    continue
+                for x in hir_walk(f.hir["body"]):
+                    if x.get("k") == "mcall" and x["name"] == "push" and x["args"]:
+                        c = hu.strip_all(x["args"][0])
+                        if c.get("k") == "call" and "compiler::module::function_to_function_ir" in hir_callee(c):
+                            sites += 1
+                            a = hu.strip_all(c["args"][pidx])
+                            recv = hir_local_id(hu.strip_all(x["recv"]))
+                            if not (a.get("k") == "mcall" and a["name"] == "len" and hir_local_id(hu.strip_all(a["recv"])) == recv and recv is not None):
+                                good = False
+                                why = "the index argument at %s is not `<out>.len()` of the vector the function is pushed onto" % f.loc(c["ln"])
+                    elif x.get("k") == "call" and "compiler::module::function_to_function_ir" in hir_callee(x):
+                        pass
+            calls = sum(1 for f in F.fns if f.hir and not f.is_closure for x in hir_walk(f.hir["body"])
+                        if x.get("k") == "call" and "compiler::module::function_to_function_ir" in hir_callee(x))
+            if sites == 0 or calls != sites:
+                res.append(undecided("C08.H", key, g.loc(), "function_to_function_ir is not (only) called as `out.push(function_to_function_ir(out.len(), ..))`"))
+            elif good:
+                res.append(ok("C08.H", key, g.loc(hexpr.get("ln")), "handle = %s(position in the flattened output), taken as out.len() at the push: unique per function" % ctor[0]))
+            else:
+                res.append(bad("C08.H", key, g.loc(hexpr.get("ln")), "function handles are derived from an index that is not unique per function: " + why))
+            return res
+    if ctor and ctor[0] in ("from_bytes_iter", "from_slice"):
+        res.append(bad("C08.H", key, g.loc(hexpr.get("ln")),
+                       "the function handle hashes the name segments back to back (%s): segment boundaries are lost, `ab.c` and `a.bc` "
+                       "(or root `foobar` and `foo.bar`) get the same handle while the dotted names pass the duplicate check; the second "
+                       "label overwrites the first and a call resolved to one function runs the other's body" % ctor[0]))
+        return res
+    res.append(undecided("C08.H", key, g.loc(hexpr.get("ln")), "handle derivation not understood (%s)" % (names or e.get("k"))))
+    return res
+
+
 def arity_param_is_fed_with_arity(F, pidx):
     """every caller of push_call_frame passes, for parameter #pidx, a value read from an `arity` field (of the function or
     closure object being called)"""
@@ -304,6 +366,7 @@ def rule_f(F):
 
 
 RULES = [
+    Rule("C08.H", rule_h, 1, "function handles are injective"),
     Rule("C08.D", rule_d, 1, "duplicate test and insertion use the same key"),
     Rule("C08.V", rule_v, 2, "every namespace component is validated"),
     Rule("C08.O", rule_o, 2, "resolution tries the documented lookups in order, later ones only on a miss"),
